@@ -48,6 +48,12 @@ def gen_cases(ctx):
                 cases.append({"kind": "catalogue", "inpkg": inpkg, "genseed": ctx.seed * 31 + inpkg, "idx": vidx[k:k + CHUNK], "template": "testify", "formatter": "goimports",
                               "placement": "inpkg-test" if inpkg else "outpkg", "td": {}, "gomod": "plain", "srckind": "ordinary", "drvseed": rng.randrange(1, 1 << 20),
                               "onefile": True, "mixed_unroll": True})
+        # the option set at the top level and set to the OPPOSITE value - explicitly, also when that is the default "false" - on every second interface
+        if vidx and (inpkg or ctx.tier == "thorough"):
+            for outer in (True, False):
+                cases.append({"kind": "catalogue", "inpkg": inpkg, "genseed": ctx.seed * 31 + inpkg, "idx": vidx[:CHUNK], "template": "testify", "formatter": "goimports",
+                              "placement": "inpkg-test" if inpkg else "outpkg", "td": {"unroll-variadic": outer}, "gomod": "plain", "srckind": "ordinary",
+                              "drvseed": rng.randrange(1, 1 << 20), "td_level": "root", "override_opposite": True})
         for ch in chunks:
             for rep in range(1 if ctx.tier == "quick" else 3):
                 u = [None, True, False][ci % 3]
@@ -96,6 +102,8 @@ def eval_case(ctx, case):
         ifaces = c01.case_ifaces(case)
     if case.get("mixed_unroll"):
         case = dict(case, td_by_name={i["name"]: ({"unroll-variadic": True} if k % 3 == 0 else ({"unroll-variadic": False} if k % 3 == 1 else {})) for k, i in enumerate(ifaces)})
+    if case.get("override_opposite"):
+        case = dict(case, td_by_name={i["name"]: {"unroll-variadic": not case["td"]["unroll-variadic"]} for k, i in enumerate(ifaces) if k % 2 == 0})
     root, info, usable, note = drvrun.prepare(ctx, case, ifaces, ctx.known)
     if root is None:
         return [(case, Verdict.skipped(note) if usable == [] else Verdict.inconclusive(note))]
@@ -107,7 +115,7 @@ def eval_case(ctx, case):
     rounds = 3 if ctx.tier == "quick" else 9
     r, findings, summary, races = drvrun.run_tests(root, info, "^TestDrvTestify$", {"DRV_SEED": str(case["drvseed"]), "DRV_ROUNDS": str(rounds)})
     td = case.get("td") or {}
-    tags = ["placement=" + case["placement"], "unroll=%s" % ("mixed-per-interface-one-file" if case.get("mixed_unroll") else td.get("unroll-variadic", "unset"))]
+    tags = ["placement=" + case["placement"], "unroll=%s" % ("mixed-per-interface-one-file" if case.get("mixed_unroll") else ("%s-at-root-opposite-on-interfaces" % td.get("unroll-variadic")) if case.get("override_opposite") else td.get("unroll-variadic", "unset"))]
     if r.timed_out:
         return [(case, Verdict.inconclusive("watchdog"))]
     if summary is None:
